@@ -401,6 +401,8 @@ def proc_matches(e, obs, ref_out, chunks=True):
         return "status %s, specified %s" % (obs["status"], e["exit"])
     if e["exit"] != 0 and not obs["stderr"].strip():
         return "non-zero status without a message on stderr"
+    if "read" in e["iofail"] and e["exit"] != 0:
+        return None     # how much was printed before the read error is diagnosed is not prescribed (the token in flight is lost)
     if not chunks:
         if any(x[1] >= 0 for x in obs["wlog"]) or bool(obs["wlog"]) != bool(e["wlog"]):
             return "write(2) log %s, specified: %s" % (obs["wlog"][:8], "every write fails" if e["wlog"] else "no write")
@@ -859,7 +861,7 @@ SEEDS = [
     ("nan-to-int", b"int x = (int)(0.0 / 0.0);\n", []),
     ("anon-member-designator", b"struct A { struct { int q; char r; }; int t; }; struct A o = {.q = 1, 2, 3};\n", []),
     ("union-reinit", b"union U { int a; struct { short p; char c; int a; } p; }; union U obj = {70000, .p = {1000, 1, .a = 5}};\n", []),
-    ("keyword-macro-twice", b"#define T int\nT a; T b;\n", []),
+    ("fixed-24ff3f5-keyword-macro-twice", b"#define T int\nT a; T b;\n", []),
     ("undef-during-args", b"#define f(x) x\nf(\n#undef f\n1)\n", ["-E"]),
     ("types-compatible-novoid", b"int v = __builtin_types_compatible_p(int, 1);\n", []),
     # regression inputs of defects repaired by fix: commits in /repo (must stay quiet)
@@ -867,8 +869,8 @@ SEEDS = [
     ("fixed-f515711-duplicate-label", b"void f(void) { x: x: ; }\n", []),
     ("fixed-c5b7a53-bitand-pointer", b"int x[1], y = 0 & x;\n", []),
     ("fixed-060fc54-void-condition", b"int i; void p; int main(void) { if (i ? 1 : 0) p ? 1 : 0; }\n", []),
+    ("fixed-d052c7b-macro-name-last-in-argument", b"#define f()\n#define m(a) a\nm(f)\n", ["-E"]),
     # still open
-    ("macro-name-last-in-argument", b"#define f()\n#define m(a) a\nm(f)\n", ["-E"]),
     ("nul-in-string", b"char s[] = \"ab\x00\";\n", []),
     ("backslash-nul-escape", b"char *s = \"\\\x00\";\n", []),
 ]
